@@ -35,8 +35,30 @@ func main() {
 	mutant := flag.String("mutant", "", "internal: run the property's rules on one named mutant overlay and print fired keys")
 	list := flag.Bool("list", false, "list properties")
 	overlayFlag := flag.String("overlay", "", "development: comma-separated repoFile=replacementFile pairs analysed instead of the files on disk (mutation sweeps); never used by registered commands")
+	dumpParams := flag.String("dump-params", "", "maintenance: write the parameter names of every top-level function of -repo to this file (checker/paramnames.json)")
 	flag.Parse()
 	verifRoot = *verif
+	if *dumpParams != "" {
+		dumpingNames = true
+		p, err := Load(*repo, nil)
+		if err != nil {
+			fmt.Println("BROKEN:", err)
+			os.Exit(2)
+		}
+		if err := dumpParamNames(p, *dumpParams); err != nil {
+			fmt.Println("BROKEN:", err)
+			os.Exit(2)
+		}
+		if err := dumpFieldNames(p, strings.Replace(*dumpParams, "paramnames", "fieldnames", 1)); err != nil {
+			fmt.Println("BROKEN:", err)
+			os.Exit(2)
+		}
+		if err := dumpFuncNames(p.Pkgs, strings.Replace(*dumpParams, "paramnames", "funcnames", 1)); err != nil {
+			fmt.Println("BROKEN:", err)
+			os.Exit(2)
+		}
+		return
+	}
 
 	if *list {
 		var ids []string
